@@ -985,7 +985,7 @@ class Executor:
             return v
         if v is None:
             return False
-        if isinstance(v, (int, Fraction)):
+        if isinstance(v, (int, Fraction, float)):
             return v != 0
         if isinstance(v, str):
             return len(v) > 0
